@@ -223,4 +223,664 @@ theorem emit_of_blocks (jr : IR) (et ww edd : Bool) (LL : List (List Str)) (RL :
         rw [join_append_singleton _ _ _ (by simp)]
         simp
 
+/-! ### round 2: what the emitter does with a parsed entry -/
+
+theorem defaultsTo_mentions : contains defaultsTo "Defaults".toList = true := by decide
+
+/-- **`set_default_doc` leaves an already completed description alone** (whatever the type field holds) -/
+theorem setDefaultDoc_exp (name : Str) (p : Param) (typ : Option Str) (edd : Bool) (hp : GoodEntry p) :
+    setDefaultDoc name { typ := typ, doc := some (docText p edd), default := dfltOf p edd } edd
+      = .ok (some (docText p edd)) := by
+  unfold setDefaultDoc
+  simp only []
+  cases hd : p.doc with
+  | none => exact absurd hd hp.docSome
+  | some d =>
+    have g := hp.doc d hd
+    cases hv : dfltOf p edd with
+    | none =>
+      have hdt : docText p edd = d := by
+        unfold docText; rw [hd]; simp only []
+        unfold dfltOf at hv; rw [hv]
+      rw [hdt]
+      simp only [g.noDef1, g.noDef2, Bool.or_self, Bool.false_and, Bool.false_eq_true, if_false]
+    | some v =>
+      have hedd : edd = true := by
+        cases edd
+        · simp [dfltOf] at hv
+        · rfl
+      subst hedd
+      have hv' : p.default = some v := by simpa [dfltOf] using hv
+      have hdt : docText p true = C01.baseOf d ++ defaultsTo ++ renderVal v := by
+        unfold docText; rw [hd]; simp only [if_true, hv']
+      rw [hdt]
+      have hm : contains (C01.baseOf d ++ defaultsTo ++ renderVal v) "Defaults".toList = true :=
+        contains_append_left' _ _ _ (contains_append_right' _ _ _ defaultsTo_mentions)
+      simp only [hm, Bool.true_or, Bool.not_true, Bool.and_false, Bool.false_and, Bool.false_eq_true, if_false]
+
+/-- the type names inferred from the defaults of the domain are good types -/
+theorem goodTyp_tyName (v : Default) (h : GoodDefault v) :
+    GoodTyp (tyName v) ∧ (tyName v).length ≤ 5 ∧ ∀ c ∈ tyName v, isSpaceC c = false := by
+  have key : ∀ t : Str, (t = ['i','n','t'] ∨ t = ['f','l','o','a','t'] ∨ t = ['b','o','o','l']) →
+      GoodTyp t ∧ t.length ≤ 5 ∧ ∀ c ∈ t, isSpaceC c = false := by
+    intro t ht
+    rcases ht with rfl | rfl | rfl
+    · exact ⟨⟨by decide, by decide, by decide⟩, by decide, by decide⟩
+    · exact ⟨⟨by decide, by decide, by decide⟩, by decide, by decide⟩
+    · exact ⟨⟨by decide, by decide, by decide⟩, by decide, by decide⟩
+  cases v with
+  | int _ => exact key _ (Or.inl rfl)
+  | float _ => exact key _ (Or.inr (Or.inl rfl))
+  | bool _ => exact key _ (Or.inr (Or.inr rfl))
+  | str _ => exact absurd h (by simp [GoodDefault])
+  | none => exact absurd h (by simp [GoodDefault])
+  | code _ => exact absurd h (by simp [GoodDefault])
+
+/-- the type field after round 1, when it is emitted in round 2: the declared type, or the one inferred from the default -/
+theorem typ2_cases (et edd : Bool) (p : Param) (hp : GoodEntry p) (h : (et && truthy (expParam et edd p).typ) = true) :
+    ∃ t, (expParam et edd p).typ = some t ∧ GoodTyp t ∧ (∀ v, p.default = some v → Compat (some t) v)
+      ∧ (((et && truthy p.typ) = true ∧ p.typ = some t)
+        ∨ ((et && truthy p.typ) = false ∧ ∃ v, dfltOf p edd = some v ∧ t = tyName v)) := by
+  simp only [Bool.and_eq_true] at h
+  obtain ⟨het, htr⟩ := h
+  subst het
+  unfold expParam at htr ⊢
+  cases ht : truthy p.typ with
+  | true =>
+    obtain ⟨t, hto, _⟩ := truthy_some p.typ ht
+    simp only [Bool.true_and, if_true]
+    refine ⟨t, hto, hp.typ t hto, ?_, Or.inl ⟨by simp, hto⟩⟩
+    intro v hv; have := (hp.dflt v hv).2; rw [hto] at this; exact this
+  | false =>
+    simp only [ht, Bool.true_and, Bool.false_eq_true, if_false] at htr ⊢
+    cases hv : dfltOf p edd with
+    | none => rw [hv] at htr; cases htr
+    | some v =>
+      refine ⟨tyName v, rfl, (goodTyp_tyName v (dfltOf_good p edd hp v hv)).1, ?_, Or.inr ⟨by simp, v, rfl, rfl⟩⟩
+      intro w hw
+      have : w = v := by
+        unfold dfltOf at hv
+        cases edd
+        · simp at hv
+        · simp only [if_true] at hv; rw [hw] at hv; exact Option.some.inj hv
+      subst this
+      exact compat_tyName w
+
+/-- the lines of a parameter in round 2 -/
+def entryLines2 (name : Str) (p : Param) (et edd : Bool) : List Str :=
+  paramLine name (docText p edd)
+    :: (if et && truthy (expParam et edd p).typ then [typeLine name ((expParam et edd p).typ.getD [])] else [])
+
+theorem entryLines2_good (name : Str) (p : Param) (et edd : Bool) (hn : GoodName name) (hp : GoodEntry p) :
+    ∀ l ∈ entryLines2 name p et edd, GoodLine l ∧ EntryLine l := by
+  have hncol : ':' ∉ name := fun h => (hn.chars _ h).1 rfl
+  intro l hl
+  unfold entryLines2 at hl
+  simp only [List.mem_cons] at hl
+  rcases hl with rfl | hl
+  · exact ⟨paramLine_good name _ hn (docText_good p edd hp), paramLine_entry name _ hncol (docText_good p edd hp).noTok⟩
+  · split at hl
+    · rename_i ht
+      obtain ⟨t, hto, gt, _, _⟩ := typ2_cases et edd p hp ht
+      simp only [List.mem_singleton] at hl
+      subst hl
+      rw [hto]
+      exact ⟨typeLine_good name t hn gt, typeLine_entry name t hncol (fun h => (gt.chars _ h).1 rfl)⟩
+    · cases hl
+
+/-- a `:type` line with a type name of at most 5 letters fits whenever the `:param` line with the default prose does -/
+theorem fits_inferred (ww : Bool) (name D t : Str) (hf : Fits ww (paramLine name D)) (hD : 13 ≤ D.length)
+    (ht : t.length ≤ 5) (hts : ∀ c ∈ t, isSpaceC c = false) : Fits ww (typeLine name t) := by
+  unfold Fits fillLine at hf ⊢
+  cases ww with
+  | false => rfl
+  | true =>
+    simp only [Bool.not_true, Bool.false_eq_true, if_false] at hf ⊢
+    split at hf
+    · rename_i hc
+      simp only [Bool.and_eq_true, decide_eq_true_eq, Bool.not_eq_true'] at hc
+      obtain ⟨⟨⟨hlen, hany⟩, _⟩, _⟩ := hc
+      have hname : name.any (fun c => isSpaceC c && c != ' ') = false := by
+        unfold paramLine at hany
+        simp only [List.any_append, Bool.or_eq_false_iff] at hany
+        exact hany.1.1.2
+      have htany : t.any (fun c => isSpaceC c && c != ' ') = false := by
+        apply any_false_of
+        intro c hc; rw [hts c hc]; rfl
+      have hlen2 : (typeLine name t).length ≤ 100 := by
+        unfold paramLine at hlen
+        unfold typeLine
+        simp only [List.length_append, pfxParam, pfxType, bt3, List.length_cons, List.length_nil] at hlen ⊢
+        omega
+      have hany2 : (typeLine name t).any (fun c => isSpaceC c && c != ' ') = false := by
+        unfold typeLine
+        simp only [List.any_append, hname, htany, Bool.or_false, Bool.false_or]
+        decide
+      have hlast : ((typeLine name t).getLast? != some ' ') = true := by
+        have : (typeLine name t).getLast? = some '`' := by
+          unfold typeLine; rw [List.getLast?_append]; rfl
+        rw [this]; decide
+      have hne : (typeLine name t).isEmpty = false := by
+        unfold typeLine pfxType; rfl
+      simp only [hlen2, hany2, hlast, hne, decide_true, Bool.not_false, Bool.and_self, if_true]
+    · cases hf
+
+theorem docText_length (p : Param) (edd : Bool) (v : Default) (hp : GoodEntry p) (hv : dfltOf p edd = some v) :
+    13 ≤ (docText p edd).length := by
+  unfold docText
+  cases hd : p.doc with
+  | none => exact absurd hd hp.docSome
+  | some d =>
+    simp only []
+    unfold dfltOf at hv
+    rw [hv]
+    simp only [List.length_append, show defaultsTo.length = 13 from rfl]
+    omega
+
+/-- **round 2 fits when round 1 did** -/
+theorem entryLines2_fits (ww : Bool) (name : Str) (p : Param) (et edd : Bool) (hp : GoodEntry p)
+    (h1 : ∀ l ∈ entryLines name p et edd, Fits ww l) : ∀ l ∈ entryLines2 name p et edd, Fits ww l := by
+  intro l hl
+  unfold entryLines2 at hl
+  simp only [List.mem_cons] at hl
+  rcases hl with rfl | hl
+  · exact h1 _ (by simp [entryLines])
+  · split at hl
+    · rename_i ht
+      obtain ⟨t, hto, gt, _, hcase⟩ := typ2_cases et edd p hp ht
+      simp only [List.mem_singleton] at hl
+      subst hl
+      rw [hto]
+      rcases hcase with ⟨h2, h3⟩ | ⟨_, v, hv, rfl⟩
+      · apply h1
+        unfold entryLines
+        rw [h2]
+        simp [h3]
+      · have gv := goodTyp_tyName v (dfltOf_good p edd hp v hv)
+        exact fits_inferred ww name _ _ (h1 _ (by simp [entryLines])) (docText_length p edd v hp hv) gv.2.1 gv.2.2
+    · cases hl
+
+/-- **the parameter block of round 2** -/
+theorem emitParamStr_round2 (name : Str) (p : Param) (et ww edd : Bool) (hn : GoodName name) (hp : GoodEntry p)
+    (h1 : ∀ l ∈ entryLines name p et edd, Fits ww l) :
+    emitParamStr name (expParam et edd p) .rest et ww edd = .ok (join ['\n'] (entryLines2 name p et edd)) := by
+  have hdoc : truthy (expParam et edd p).doc = true := by
+    have := (docText_good p edd hp).ne
+    show truthy (some (docText p edd)) = true
+    cases hd : docText p edd with
+    | nil => exact absurd hd this
+    | cons _ _ => rfl
+  rw [emitParamStr_eq name _ et ww edd (docText p edd) hdoc (setDefaultDoc_exp name p _ edd hp)]
+  have hr : (name == sReturnType) = false := by
+    cases hb' : (name == sReturnType) with
+    | false => rfl
+    | true => exact absurd (beq_iff_eq.mp hb') hn.notRet
+  have hl : linesOf (name == sReturnType) name (docText p edd) (expParam et edd p).typ et = entryLines2 name p et edd := by
+    rw [hr]
+    unfold linesOf entryLines2
+    rw [lstrip_headNS _ (docText_good p edd hp).headNS]
+    simp
+  rw [hl]
+  exact blockOut_fits ww _ (entryLines2_fits ww name p et edd hp h1) (fun l hl => (entryLines2_good name p et edd hn hp l hl).1)
+
+/-- **the return block of round 2 is the one of round 1** -/
+theorem emitRet_round2 (p : Param) (et ww edd : Bool) (hp : GoodEntry p)
+    (h1 : ∀ l ∈ retLines p et edd, Fits ww l) :
+    emitParamStr sReturnType (expRet et edd p) .rest et ww edd = .ok (join ['\n'] (retLines p et edd)) := by
+  have hdoc : truthy (expRet et edd p).doc = true := by
+    have := (docText_good p edd hp).ne
+    show truthy (some (docText p edd)) = true
+    cases hd : docText p edd with
+    | nil => exact absurd hd this
+    | cons _ _ => rfl
+  rw [emitParamStr_eq sReturnType _ et ww edd (docText p edd) hdoc (setDefaultDoc_exp sReturnType p _ edd hp)]
+  have hl : linesOf (sReturnType == sReturnType) sReturnType (docText p edd) (expRet et edd p).typ et = retLines p et edd := by
+    rw [beq_self_eq_true]
+    unfold linesOf retLines expRet
+    rw [lstrip_headNS _ (docText_good p edd hp).headNS]
+    cases ht : (et && truthy p.typ) with
+    | false => simp [ht, truthy]
+    | true =>
+      simp only [Bool.and_eq_true] at ht
+      simp [ht.1, ht.2]
+  rw [hl]
+  exact blockOut_fits ww _ h1 (retLines_good p et edd hp)
+
+
+/-! ### round 2: what the parser does with the (possibly new) `:type` line -/
+
+/-- the `:type` line on the entry the `:param` line made, for any good type compatible with the default
+    (`fTyp_good` with the declared type replaced by an arbitrary one) -/
+theorem fTyp_good' (name : Str) (p : Param) (t : Str) (edd : Bool) (hn : GoodName name) (hp : GoodEntry p) (gt : GoodTyp t)
+    (hc : ∀ v, p.default = some v → Compat (some t) v) :
+    fTyp name (bt3 ++ t ++ bt3) edd { typ := (dfltOf p edd).map tyName, doc := some (docText p edd), default := dfltOf p edd }
+      = .ok { typ := some t, doc := some (docText p edd), default := dfltOf p edd } := by
+  unfold fTyp
+  rw [stripBackticks3_good t (fun h => (gt.chars _ h).2.1 rfl)]
+  have h1 := interp_good (some t) (docText p edd) (dfltOf p edd) (dfltOf p edd) edd
+    (extract_docText' p edd (some t) hp hc) (dfltOf_good p edd hp) (Or.inr rfl)
+  simp only [h1]
+  rw [setNameAndType_good name (some t) (docText p edd) (dfltOf p edd) hn (fun t' ht' => by cases ht'; exact gt.noOptSuffix)
+    (docText_good p edd hp) (extract_docText_true p edd hp) (dfltOf_good p edd hp)]
+  rfl
+
+/-- **one parameter block of round 2** gives the same parsed parameter as round 1 -/
+theorem fold_paramBlock2 (ir0 : IR) (name : Str) (p : Param) (et edd : Bool) (rest : List (List Str))
+    (hn : GoodName name) (hp : GoodEntry p) (hfresh : name ∉ ir0.params.map (·.1)) :
+    foldChunks edd ir0 (chunksOfBlock (entryLines2 name p et edd) ++ rest)
+      = foldChunks edd { ir0 with params := ir0.params ++ [(name, expParam et edd p)] } rest := by
+  have hncol : ':' ∉ name := fun h => (hn.chars _ h).1 rfl
+  have gd := docText_good p edd hp
+  unfold entryLines2
+  cases ht : (et && truthy (expParam et edd p).typ) with
+  | false =>
+    simp only [Bool.false_eq_true, if_false, chunksOfBlock, List.cons_append, List.nil_append]
+    rw [foldChunks_cons_ok edd ir0 _ _ rest
+      (stepChunk_param ir0 _ edd name (docText p edd) ['\n'] _ (join_line_blank _) hncol gd.headNS gd.lastNS allSpace_nl
+        (upsert_fresh _ _ _ _ hfresh (fDoc_good name p edd hn hp)))]
+    -- no type line: nothing declared is emitted and nothing was inferred, or types are off
+    have : expParam et edd p = { typ := (dfltOf p edd).map tyName, doc := some (docText p edd), default := dfltOf p edd } := by
+      unfold expParam at ht ⊢
+      cases het : et with
+      | false => simp
+      | true =>
+        rw [het] at ht
+        cases htp : truthy p.typ with
+        | false => simp [htp]
+        | true => simp [htp] at ht
+    rw [this]
+  | true =>
+    obtain ⟨t, hto, gt, hc, _⟩ := typ2_cases et edd p hp ht
+    simp only [if_true, chunksOfBlock, List.cons_append, List.nil_append, hto, Option.getD_some]
+    rw [foldChunks_cons_ok edd ir0 _ _ _
+      (stepChunk_param ir0 _ edd name (docText p edd) [] _ (join_line _) hncol gd.headNS gd.lastNS allSpace_nil
+        (upsert_fresh _ _ _ _ hfresh (fDoc_good name p edd hn hp)))]
+    rw [foldChunks_cons_ok edd _ _ _ rest
+      (stepChunk_type _ _ edd name t ['\n'] _ (join_line_blank _) hncol allSpace_nl
+        (upsert_last _ _ _ _ _ hfresh (fTyp_good' name p t edd hn hp gt hc)))]
+    have : expParam et edd p = { typ := some t, doc := some (docText p edd), default := dfltOf p edd } := by
+      have e : expParam et edd p = { typ := (expParam et edd p).typ, doc := some (docText p edd), default := dfltOf p edd } := rfl
+      rw [e, hto]
+    rw [this]
+
+theorem fold_params2 (ps : List (Str × Param)) (ir0 : IR) (et edd : Bool) (rest : List (List Str))
+    (hn : ∀ np ∈ ps, GoodName np.1) (hp : ∀ np ∈ ps, GoodEntry np.2)
+    (hnd : (ir0.params.map (·.1) ++ ps.map (·.1)).Nodup) :
+    foldChunks edd ir0 ((ps.map (fun np => entryLines2 np.1 np.2 et edd)).flatMap chunksOfBlock ++ rest)
+      = foldChunks edd { ir0 with params := ir0.params ++ ps.map (fun np => (np.1, expParam et edd np.2)) } rest := by
+  induction ps generalizing ir0 with
+  | nil => simp
+  | cons np r ih =>
+    have hfresh : np.1 ∉ ir0.params.map (·.1) := by
+      intro hm
+      have := (List.nodup_append.mp hnd).2.2 _ hm np.1 (by simp)
+      exact this rfl
+    simp only [List.map_cons, List.flatMap_cons, List.append_assoc]
+    rw [fold_paramBlock2 ir0 np.1 np.2 et edd _ (hn np (by simp)) (hp np (by simp)) hfresh]
+    rw [ih _ (fun x hx => hn x (by simp [hx])) (fun x hx => hp x (by simp [hx])) (by
+      simp only [List.map_append, List.map_cons, List.map_nil, List.append_assoc, List.singleton_append]
+      simpa using hnd)]
+    simp
+
+/-! ### the parser on given lines (generic form of `parse_emitted`) -/
+
+theorem parse_of_lines (s : Str) (edd : Bool) (hdr : List Str) (BL : List (List Str)) (R : IR)
+    (hlines : split1 s '\n' = hdr ++ BL.flatMap (· ++ [[]])) (hhdr : ∀ l ∈ hdr, NoTok l)
+    (hB : ∀ b ∈ BL, b ≠ [] ∧ ∀ l ∈ b, EntryLine l)
+    (hfold : foldChunks edd { doc := strip (join ['\n'] hdr) } (BL.flatMap chunksOfBlock) = .ok R)
+    (hfinal : mapVals (fun p => interpolateDefaults p edd) R.params = .ok R.params)
+    (hret : ∀ r, R.returns = some r → interpolateDefaults r edd = .ok r) :
+    parseRest s edd = .ok R := by
+  obtain ⟨rdoc, rparams, rret⟩ := R
+  simp only at hfinal hret
+  have hline : ∀ l ∈ split1 s '\n', NoTok l ∨ EntryLine l := by
+    intro l hl
+    rw [hlines] at hl
+    rcases List.mem_append.mp hl with hl | hl
+    · exact Or.inl (hhdr l hl)
+    · obtain ⟨b, hb, hlb⟩ := List.mem_flatMap.mp hl
+      rcases List.mem_append.mp hlb with h | h
+      · exact Or.inr ((hB b hb).2 l h)
+      · simp only [List.mem_singleton] at h; subst h; left; exact noTok_nil
+  have hc1 : (split1 s '\n').any (fun l => allRestTokens.any (fun t => contains (l.drop 1) t)) = false := by
+    apply any_false_of
+    intro l hl
+    rcases hline l hl with h | h
+    · exact (noTok_checks l h).2.1
+    · exact h.c1
+  have hc2 : (split1 s '\n').any (fun l => [":raises".toList, ":cvar".toList, ":ivar".toList, ":var".toList].any (fun t => startsWith l t)) = false := by
+    apply any_false_of
+    intro l hl
+    rcases hline l hl with h | h
+    · exact (noTok_checks l h).2.2
+    · exact h.c2
+  have hgroup : groupLines (split1 s '\n') Option.none [] [] = (hdr, BL.flatMap chunksOfBlock) := by
+    rw [hlines]
+    exact groupLines_emitted hdr _ (fun l hl => (noTok_checks l (hhdr l hl)).1)
+      (fun b hb => ⟨(hB b hb).1, fun l hl => ((hB b hb).2 l hl).tok⟩)
+  unfold parseRest
+  simp only [hc1, hc2, Bool.false_eq_true, if_false, hgroup, hfold, hfinal]
+  cases rret with
+  | none => rfl
+  | some r => simp only [hret r rfl]
+
+/-! ### from "round 1 answered" to "every line of round 1 fits" -/
+
+theorem mapOut_ok_each {α β : Type} (f : α → Out β) (l : List α) (bs : List β) (h : mapOut f l = .ok bs) :
+    ∀ x ∈ l, ∃ b, f x = .ok b := by
+  induction l generalizing bs with
+  | nil => intro x hx; cases hx
+  | cons a r ih =>
+    simp only [mapOut] at h
+    cases hf : f a with
+    | outside w => rw [hf] at h; cases h
+    | ok b =>
+      rw [hf] at h
+      cases hm : mapOut f r with
+      | outside w => rw [hm] at h; cases h
+      | ok bs' =>
+        intro x hx
+        simp only [List.mem_cons] at hx
+        rcases hx with rfl | hx
+        · exact ⟨b, hf⟩
+        · exact ih bs' hm x hx
+
+theorem mapOut_map_ok {α β γ : Type} (f : β → Out γ) (g : α → β) (k : α → γ) (l : List α)
+    (h : ∀ x ∈ l, f (g x) = .ok (k x)) : mapOut f (l.map g) = .ok (l.map k) := by
+  induction l with
+  | nil => rfl
+  | cons a r ih =>
+    simp only [List.map_cons, mapOut, h a (by simp), ih (fun x hx => h x (by simp [hx]))]
+
+theorem entry_fits_of_ok (name : Str) (p : Param) (et ww edd : Bool) (b : Str) (hn : GoodName name) (hp : GoodEntry p)
+    (h : emitParamStr name p .rest et ww edd = .ok b) : ∀ l ∈ entryLines name p et edd, Fits ww l := by
+  rw [emitParamStr_eq name p et ww edd (docText p edd) (goodEntry_truthy p hp) (setDefaultDoc_good name p edd hp)] at h
+  have hr : (name == sReturnType) = false := by
+    cases hb' : (name == sReturnType) with
+    | false => rfl
+    | true => exact absurd (beq_iff_eq.mp hb') hn.notRet
+  have hl : linesOf (name == sReturnType) name (docText p edd) p.typ et = entryLines name p et edd := by
+    rw [hr]
+    unfold linesOf entryLines
+    rw [lstrip_headNS _ (docText_good p edd hp).headNS]
+    simp
+  rw [hl] at h
+  exact fits_of_blockOut ww _ b h
+
+theorem ret_fits_of_ok (p : Param) (et ww edd : Bool) (b : Str) (hp : GoodEntry p)
+    (h : emitParamStr sReturnType p .rest et ww edd = .ok b) : ∀ l ∈ retLines p et edd, Fits ww l := by
+  rw [emitParamStr_eq sReturnType p et ww edd (docText p edd) (goodEntry_truthy p hp) (setDefaultDoc_good sReturnType p edd hp)] at h
+  have hl : linesOf (sReturnType == sReturnType) sReturnType (docText p edd) p.typ et = retLines p et edd := by
+    rw [beq_self_eq_true]
+    unfold linesOf retLines
+    rw [lstrip_headNS _ (docText_good p edd hp).headNS]
+    simp
+  rw [hl] at h
+  exact fits_of_blockOut ww _ b h
+
+/-- every line of the emitted docstring passed `fill` -/
+structure AllFit (ir : IR) (et ww edd : Bool) : Prop where
+  params : ∀ np ∈ ir.params, ∀ l ∈ entryLines np.1 np.2 et edd, Fits ww l
+  ret : ∀ rp, ir.returns = some rp → ∀ l ∈ retLines rp et edd, Fits ww l
+
+theorem allFit_of_emit (ir : IR) (et ww edd : Bool) (s : Str) (g : GoodIR ir) (he : emit ir .rest et ww edd = .ok s) :
+    AllFit ir et ww edd := by
+  rw [emit_rest_eq] at he
+  unfold emitRest' at he
+  cases hm : mapOut (fun np => emitParamStr np.1 np.2 .rest et ww edd) ir.params with
+  | outside w => rw [hm] at he; cases he
+  | ok blocks =>
+    rw [hm] at he
+    simp only [] at he
+    refine ⟨?_, ?_⟩
+    · intro np hnp
+      obtain ⟨b, hb⟩ := mapOut_ok_each _ _ _ hm np hnp
+      exact entry_fits_of_ok np.1 np.2 et ww edd b (g.names np hnp) (g.entries np hnp) hb
+    · intro rp hr
+      rw [hr] at he
+      simp only [] at he
+      cases hl : emitParamStr sReturnType rp .rest et ww edd with
+      | outside w => rw [hl] at he; cases he
+      | ok line => exact ret_fits_of_ok rp et ww edd line (g.ret rp hr) hl
+
+theorem allFit_noWrap (ir : IR) (et edd : Bool) : AllFit ir et false edd :=
+  ⟨fun _ _ l _ => fits_noWrap l, fun _ _ l _ => fits_noWrap l⟩
+
+/-! ### the second round -/
+
+/-- **Round 2.**  For an interface of the domain all of whose round-1 lines fit, the emitter answers on the parsed
+    interface `expIR ir et edd`, and the parser gives `expIR ir et edd` back. -/
+theorem second_round_of_fit (ir : IR) (et ww edd : Bool) (g : GoodIR ir) (hf : AllFit ir et ww edd) :
+    ∃ s', emit (expIR ir et edd) .rest et ww edd = .ok s' ∧ parseRest s' edd = .ok (expIR ir et edd) := by
+  -- the blocks of round 2
+  let LL := ir.params.map (fun np => entryLines2 np.1 np.2 et edd)
+  let RL := ir.returns.map (fun rp => retLines rp et edd)
+  have hp : mapOut (fun np => emitParamStr np.1 np.2 .rest et ww edd) (expIR ir et edd).params = .ok (LL.map (join ['\n'])) := by
+    show mapOut _ (ir.params.map (fun np => (np.1, expParam et edd np.2))) = _
+    rw [List.map_map]
+    exact mapOut_map_ok _ _ _ _ (fun np hnp =>
+      emitParamStr_round2 np.1 np.2 et ww edd (g.names np hnp) (g.entries np hnp) (hf.params np hnp))
+  have hr : ((expIR ir et edd).returns = Option.none ∧ RL = Option.none)
+      ∨ ∃ rp rl, (expIR ir et edd).returns = some rp ∧ RL = some rl ∧ emitParamStr sReturnType rp .rest et ww edd = .ok (join ['\n'] rl) := by
+    cases hret : ir.returns with
+    | none => left; simp [expIR, RL, hret]
+    | some rp =>
+      right
+      exact ⟨expRet et edd rp, retLines rp et edd, by simp [expIR, hret], by simp [RL, hret],
+        emitRet_round2 rp et ww edd (g.ret rp hret) (hf.ret rp hret)⟩
+  have hgood : ∀ b ∈ LL ++ RL.toList, b ≠ [] ∧ ∀ l ∈ b, GoodLine l ∧ EntryLine l := by
+    intro b hb
+    rcases List.mem_append.mp hb with hb | hb
+    · obtain ⟨np, hnp, rfl⟩ := List.mem_map.mp hb
+      exact ⟨by simp [entryLines2], entryLines2_good np.1 np.2 et edd (g.names np hnp) (g.entries np hnp)⟩
+    · cases hret : ir.returns with
+      | none => simp [RL, hret] at hb
+      | some rp =>
+        simp only [RL, hret, Option.map_some, Option.toList_some, List.mem_singleton] at hb
+        subst hb
+        exact ⟨by simp [retLines], fun l hl => ⟨retLines_good rp et edd (g.ret rp hret) l hl, retLines_entry rp et edd (g.ret rp hret) l hl⟩⟩
+  obtain ⟨s', hdr, hemit, hlines, hhdr, hstrip⟩ := emit_of_blocks (expIR ir et edd) et ww edd LL RL g.hdr hp hr
+    (fun b hb => ⟨(hgood b hb).1, fun l hl => ((hgood b hb).2 l hl).1⟩)
+  refine ⟨s', hemit, ?_⟩
+  apply parse_of_lines s' edd hdr (LL ++ RL.toList) (expIR ir et edd) hlines hhdr
+    (fun b hb => ⟨(hgood b hb).1, fun l hl => ((hgood b hb).2 l hl).2⟩)
+  · -- the fold
+    rw [hstrip]
+    show foldChunks edd { doc := ir.doc } _ = _
+    rw [List.flatMap_append, fold_params2 ir.params { doc := ir.doc } et edd _ g.names g.entries (by simpa using g.nodup)]
+    cases hret : ir.returns with
+    | none => simp [RL, hret, foldChunks, expIR]
+    | some rp =>
+      simp only [RL, hret, Option.map_some, Option.toList_some, List.flatMap_cons, List.flatMap_nil, List.append_nil, List.nil_append]
+      rw [fold_retBlock _ rp et edd (g.ret rp hret) rfl]
+      simp [expIR, hret]
+  · exact mapVals_final ir.params et edd g.entries
+  · intro r hr'
+    cases hret : ir.returns with
+    | none => simp [expIR, hret] at hr'
+    | some rp =>
+      simp only [expIR, hret, Option.map_some, Option.some.injEq] at hr'
+      subst hr'
+      exact final_ret et edd rp (g.ret rp hret)
+
+/-- **Round 2, from "round 1 answered"** -/
+theorem second_round (ir : IR) (et ww edd : Bool) (s : Str) (g : GoodIR ir) (he : emit ir .rest et ww edd = .ok s) :
+    ∃ s', emit (expIR ir et edd) .rest et ww edd = .ok s' ∧ parseRest s' edd = .ok (expIR ir et edd) :=
+  second_round_of_fit ir et ww edd g (allFit_of_emit ir et ww edd s g he)
+
+/-! ### the emitter answers whenever every line fits (in particular always without word wrap) -/
+
+theorem emit_total_of_fit (ir : IR) (et ww edd : Bool) (g : GoodIR ir) (hf : AllFit ir et ww edd) :
+    ∃ s, emit ir .rest et ww edd = .ok s := by
+  let LL := ir.params.map (fun np => entryLines np.1 np.2 et edd)
+  let RL := ir.returns.map (fun rp => retLines rp et edd)
+  have hblk : ∀ np ∈ ir.params, emitParamStr np.1 np.2 .rest et ww edd = .ok (join ['\n'] (entryLines np.1 np.2 et edd)) := by
+    intro np hnp
+    have hn := g.names np hnp
+    have hp := g.entries np hnp
+    rw [emitParamStr_eq np.1 np.2 et ww edd (docText np.2 edd) (goodEntry_truthy _ hp) (setDefaultDoc_good np.1 np.2 edd hp)]
+    have hr : (np.1 == sReturnType) = false := by
+      cases hb' : (np.1 == sReturnType) with
+      | false => rfl
+      | true => exact absurd (beq_iff_eq.mp hb') hn.notRet
+    have hl : linesOf (np.1 == sReturnType) np.1 (docText np.2 edd) np.2.typ et = entryLines np.1 np.2 et edd := by
+      rw [hr]
+      unfold linesOf entryLines
+      rw [lstrip_headNS _ (docText_good np.2 edd hp).headNS]
+      simp
+    rw [hl]
+    exact blockOut_fits ww _ (hf.params np hnp) (entryLines_good np.1 np.2 et edd hn hp)
+  have hp : mapOut (fun np => emitParamStr np.1 np.2 .rest et ww edd) ir.params = .ok (LL.map (join ['\n'])) := by
+    have := mapOut_map_ok (fun np : Str × Param => emitParamStr np.1 np.2 .rest et ww edd) id
+      (fun np => join ['\n'] (entryLines np.1 np.2 et edd)) ir.params (fun np hnp => hblk np hnp)
+    rw [List.map_id] at this
+    rw [this, List.map_map]; rfl
+  have hr : (ir.returns = Option.none ∧ RL = Option.none)
+      ∨ ∃ rp rl, ir.returns = some rp ∧ RL = some rl ∧ emitParamStr sReturnType rp .rest et ww edd = .ok (join ['\n'] rl) := by
+    cases hret : ir.returns with
+    | none => left; simp [RL, hret]
+    | some rp =>
+      right
+      refine ⟨rp, retLines rp et edd, rfl, by simp [RL, hret], ?_⟩
+      have hp := g.ret rp hret
+      rw [emitParamStr_eq sReturnType rp et ww edd (docText rp edd) (goodEntry_truthy _ hp) (setDefaultDoc_good sReturnType rp edd hp)]
+      have hl : linesOf (sReturnType == sReturnType) sReturnType (docText rp edd) rp.typ et = retLines rp et edd := by
+        rw [beq_self_eq_true]
+        unfold linesOf retLines
+        rw [lstrip_headNS _ (docText_good rp edd hp).headNS]
+        simp
+      rw [hl]
+      exact blockOut_fits ww _ (hf.ret rp hret) (retLines_good rp et edd hp)
+  have hgood : ∀ b ∈ LL ++ RL.toList, b ≠ [] ∧ ∀ l ∈ b, GoodLine l := by
+    intro b hb
+    rcases List.mem_append.mp hb with hb | hb
+    · obtain ⟨np, hnp, rfl⟩ := List.mem_map.mp hb
+      exact ⟨by simp [entryLines], entryLines_good np.1 np.2 et edd (g.names np hnp) (g.entries np hnp)⟩
+    · cases hret : ir.returns with
+      | none => simp [RL, hret] at hb
+      | some rp =>
+        simp only [RL, hret, Option.map_some, Option.toList_some, List.mem_singleton] at hb
+        subst hb
+        exact ⟨by simp [retLines], retLines_good rp et edd (g.ret rp hret)⟩
+  obtain ⟨s, _, hemit, _⟩ := emit_of_blocks ir et ww edd LL RL g.hdr hp hr hgood
+  exact ⟨s, hemit⟩
+
+/-- without word wrap the emitter answers on the whole domain -/
+theorem emit_total_noWrap (ir : IR) (et edd : Bool) (g : GoodIR ir) : ∃ s, emit ir .rest et false edd = .ok s :=
+  emit_total_of_fit ir et false edd g (allFit_noWrap ir et edd)
+
+/-! ### where round 2 emits the very same text -/
+
+/-- the return part handed to the last step of `emit` -/
+def retText (P : Str) : Option (List Str) → Str
+  | Option.none => []
+  | some rl => retPart P (join ['\n'] rl)
+
+/-- the value of `emit` on given blocks -/
+theorem emit_value (jr : IR) (et ww edd : Bool) (LL : List (List Str)) (RL : Option (List Str))
+    (hp : mapOut (fun np => emitParamStr np.1 np.2 .rest et ww edd) jr.params = .ok (LL.map (join ['\n'])))
+    (hr : (jr.returns = Option.none ∧ RL = Option.none)
+        ∨ ∃ rp rl, jr.returns = some rp ∧ RL = some rl ∧ emitParamStr sReturnType rp .rest et ww edd = .ok (join ['\n'] rl)) :
+    emit jr .rest et ww edd = .ok (finish (outOf jr.doc (join ['\n', '\n'] (LL.map (join ['\n'])))
+      (retText (join ['\n', '\n'] (LL.map (join ['\n']))) RL))) := by
+  rw [emit_rest_eq]
+  unfold emitRest'
+  rw [hp]
+  simp only []
+  rcases hr with ⟨hr, hRL⟩ | ⟨rp, rl, hr, hRL, hl⟩
+  · subst hRL; rw [hr]; rfl
+  · subst hRL; rw [hr]; simp only []; rw [hl]; rfl
+
+/-- the parameter blocks of round 1 -/
+theorem blocks_round1 (ir : IR) (et ww edd : Bool) (g : GoodIR ir) (hf : AllFit ir et ww edd) :
+    mapOut (fun np => emitParamStr np.1 np.2 .rest et ww edd) ir.params
+      = .ok ((ir.params.map (fun np => entryLines np.1 np.2 et edd)).map (join ['\n'])) := by
+  have hblk : ∀ np ∈ ir.params, emitParamStr np.1 np.2 .rest et ww edd = .ok (join ['\n'] (entryLines np.1 np.2 et edd)) := by
+    intro np hnp
+    have hn := g.names np hnp
+    have hp := g.entries np hnp
+    rw [emitParamStr_eq np.1 np.2 et ww edd (docText np.2 edd) (goodEntry_truthy _ hp) (setDefaultDoc_good np.1 np.2 edd hp)]
+    have hr : (np.1 == sReturnType) = false := by
+      cases hb' : (np.1 == sReturnType) with
+      | false => rfl
+      | true => exact absurd (beq_iff_eq.mp hb') hn.notRet
+    have hl : linesOf (np.1 == sReturnType) np.1 (docText np.2 edd) np.2.typ et = entryLines np.1 np.2 et edd := by
+      rw [hr]
+      unfold linesOf entryLines
+      rw [lstrip_headNS _ (docText_good np.2 edd hp).headNS]
+      simp
+    rw [hl]
+    exact blockOut_fits ww _ (hf.params np hnp) (entryLines_good np.1 np.2 et edd hn hp)
+  have := mapOut_map_ok (fun np : Str × Param => emitParamStr np.1 np.2 .rest et ww edd) id
+    (fun np => join ['\n'] (entryLines np.1 np.2 et edd)) ir.params (fun np hnp => hblk np hnp)
+  rw [List.map_id] at this
+  rw [this, List.map_map]; rfl
+
+theorem ret_round1 (ir : IR) (et ww edd : Bool) (g : GoodIR ir) (hf : AllFit ir et ww edd) :
+    (ir.returns = Option.none ∧ ir.returns.map (fun rp => retLines rp et edd) = Option.none)
+      ∨ ∃ rp rl, ir.returns = some rp ∧ ir.returns.map (fun rp => retLines rp et edd) = some rl
+          ∧ emitParamStr sReturnType rp .rest et ww edd = .ok (join ['\n'] rl) := by
+  cases hret : ir.returns with
+  | none => left; simp
+  | some rp =>
+    right
+    refine ⟨rp, retLines rp et edd, rfl, by simp, ?_⟩
+    have hp := g.ret rp hret
+    rw [emitParamStr_eq sReturnType rp et ww edd (docText rp edd) (goodEntry_truthy _ hp) (setDefaultDoc_good sReturnType rp edd hp)]
+    have hl : linesOf (sReturnType == sReturnType) sReturnType (docText rp edd) rp.typ et = retLines rp et edd := by
+      rw [beq_self_eq_true]
+      unfold linesOf retLines
+      rw [lstrip_headNS _ (docText_good rp edd hp).headNS]
+      simp
+    rw [hl]
+    exact blockOut_fits ww _ (hf.ret rp hret) (retLines_good rp et edd hp)
+
+theorem blocks_round2 (ir : IR) (et ww edd : Bool) (g : GoodIR ir) (hf : AllFit ir et ww edd) :
+    mapOut (fun np => emitParamStr np.1 np.2 .rest et ww edd) (expIR ir et edd).params
+      = .ok ((ir.params.map (fun np => entryLines2 np.1 np.2 et edd)).map (join ['\n'])) := by
+  show mapOut _ (ir.params.map (fun np => (np.1, expParam et edd np.2))) = _
+  rw [List.map_map]
+  exact mapOut_map_ok _ _ _ _ (fun np hnp =>
+    emitParamStr_round2 np.1 np.2 et ww edd (g.names np hnp) (g.entries np hnp) (hf.params np hnp))
+
+theorem ret_round2 (ir : IR) (et ww edd : Bool) (g : GoodIR ir) (hf : AllFit ir et ww edd) :
+    ((expIR ir et edd).returns = Option.none ∧ ir.returns.map (fun rp => retLines rp et edd) = Option.none)
+      ∨ ∃ rp rl, (expIR ir et edd).returns = some rp ∧ ir.returns.map (fun rp => retLines rp et edd) = some rl
+          ∧ emitParamStr sReturnType rp .rest et ww edd = .ok (join ['\n'] rl) := by
+  cases hret : ir.returns with
+  | none => left; simp [expIR, hret]
+  | some rp =>
+    right
+    exact ⟨expRet et edd rp, retLines rp et edd, by simp [expIR, hret], by simp,
+      emitRet_round2 rp et ww edd (g.ret rp hret) (hf.ret rp hret)⟩
+
+/-- nothing new is emitted for this parameter in round 2: types are off, or a type is declared, or no default is carried -/
+def NoNewTypeLine (et edd : Bool) (p : Param) : Prop := et = false ∨ truthy p.typ = true ∨ dfltOf p edd = Option.none
+
+theorem entryLines2_same (name : Str) (p : Param) (et edd : Bool) (h : NoNewTypeLine et edd p) :
+    entryLines2 name p et edd = entryLines name p et edd := by
+  unfold entryLines2 entryLines expParam
+  rcases h with rfl | h | h
+  · simp
+  · cases et <;> simp [h]
+  · cases et with
+    | false => simp
+    | true =>
+      cases ht : truthy p.typ with
+      | true => simp [ht]
+      | false => simp [ht, h, truthy]
+
+/-- **same text in round 2** when no parameter gets a new `:type` line -/
+theorem same_text_round2 (ir : IR) (et ww edd : Bool) (s : Str) (g : GoodIR ir) (he : emit ir .rest et ww edd = .ok s)
+    (hno : ∀ np ∈ ir.params, NoNewTypeLine et edd np.2) : emit (expIR ir et edd) .rest et ww edd = .ok s := by
+  have hf := allFit_of_emit ir et ww edd s g he
+  have h1 := emit_value ir et ww edd _ _ (blocks_round1 ir et ww edd g hf) (ret_round1 ir et ww edd g hf)
+  have h2 := emit_value (expIR ir et edd) et ww edd _ _ (blocks_round2 ir et ww edd g hf) (ret_round2 ir et ww edd g hf)
+  have hLL : ir.params.map (fun np => entryLines2 np.1 np.2 et edd) = ir.params.map (fun np => entryLines np.1 np.2 et edd) :=
+    List.map_congr_left (fun np hnp => entryLines2_same np.1 np.2 et edd (hno np hnp))
+  rw [hLL] at h2
+  rw [h2]
+  rw [h1] at he
+  exact he
+
 end DocRT
